@@ -796,7 +796,7 @@ func init() {
 		Real: []string{"internal/clients (tail client)", "internal/server/handlers", "internal/io/fs (readfile tail path, stats)", "internal/server + x/crypto/ssh over simnet (SSH runs)"},
 		Stub: []string{"cmd/dtail main replica; Ctrl-C modelled as context cancel", "the log writer is a harness goroutine appending to a real file"},
 		Assumptions: []string{"fewer than 100 selected lines in the whole session (all followed files share one queue) means the 100-slot delivery queue can never have been full, so any loss is a violation",
-			"with 100 or more, a gap is accepted only if the next delivered line of that file reports < 100 % transmitted", "no truncation/rotation (not quantified by the statement)"},
+			"with 100 or more, a gap is accepted only if the next delivered line of that file reports < 100 % transmitted", "rotation (rename + create) in 6 % of the scenarios, judged only by what the statement says: no old content - which after a rotation is everything written while the follower had not yet re-opened the path -, nothing twice; no truncation in place (not quantified by the statement)"},
 		New:      func() Scenario { return &C04Scenario{} },
 		Gen:      c04Gen,
 		Run:      c04Run,
